@@ -15,6 +15,7 @@
 #include <stdatomic.h>
 #include <sys/syscall.h>
 extern void dispatch_queue_set_width(dispatch_queue_t dq, long width);
+extern void _Block_release(const void *);
 static uint64_t seed; static __thread uint64_t rng;
 static inline uint64_t rnd(void){ if(!rng) rng = seed ^ (uint64_t)syscall(SYS_gettid)*0x9e3779b97f4a7c15ull; rng ^= rng<<13; rng ^= rng>>7; rng ^= rng<<17; return rng; }
 static atomic_int viol; static char vmsg[300];
@@ -27,7 +28,11 @@ static void barrier(void *c){ (void)c; if(atomic_exchange(&in_barrier,1)) fail("
   for(volatile int k=0;k<1500;k++){} r=atomic_load(&readers); if(r) fail("a reader ran during a barrier item: readers",r,0,0); atomic_store(&in_barrier,0); atomic_fetch_add(&done,1); atomic_fetch_add(&progress,1); atomic_fetch_sub(&outstanding,1); }
 static void *flood(void *a){ (void)a; while(!atomic_load(&stop) && !viol){ if(atomic_load(&outstanding)>400){ usleep(100); continue; } atomic_fetch_add(&outstanding,1); dispatch_async_f(q,0,reader); if(rnd()%16==0) usleep(rnd()%100); } return 0; }
 static void *syncer(void *a){ long me=(long)a; while(!atomic_load(&stop) && !viol){ atomic_fetch_add(&outstanding,1);
-    switch((int)((rnd()+ (uint64_t)me)%4)){ case 0: dispatch_sync_f(q,0,reader); break; case 1: dispatch_barrier_sync_f(q,0,barrier); break; case 2: dispatch_barrier_async_f(q,0,barrier); break; default: dispatch_async_f(q,0,reader); break; }
+    switch((int)((rnd()+ (uint64_t)me)%6)){ case 0: dispatch_sync_f(q,0,reader); break; case 1: dispatch_barrier_sync_f(q,0,barrier); break; case 2: dispatch_barrier_async_f(q,0,barrier); break;
+      case 3: { // the barrier-ness comes from the API call, not from the block object: a block object WITHOUT the BARRIER flag handed to dispatch_barrier_sync is still a barrier item
+        dispatch_block_t b=dispatch_block_create(rnd()%2?0:DISPATCH_BLOCK_ASSIGN_CURRENT,^{ barrier(NULL); }); dispatch_barrier_sync(q,b); _Block_release(b); break; }
+      case 4: { dispatch_block_t b=dispatch_block_create(DISPATCH_BLOCK_BARRIER,^{ barrier(NULL); }); if(rnd()%2) dispatch_sync(q,b); else dispatch_async(q,b); _Block_release(b); break; }      // ... and the flag alone makes one, through any API
+      default: dispatch_async_f(q,0,reader); break; }
     usleep((useconds_t)(rnd()%200)); } return 0; }
 static void *changer(void *a){ (void)a; static const long W[]={2,3,4,7,16,-1,-2,-3}; while(!atomic_load(&stop) && !viol){ dispatch_queue_set_width(q,W[rnd()%8]); atomic_fetch_add(&changes,1); usleep((useconds_t)(300+rnd()%1500)); } return 0; }
 int main(int argc,char**argv){ seed=argc>1?strtoull(argv[1],0,0):1; int ms=argc>2?atoi(argv[2]):1500;
